@@ -49,8 +49,9 @@ PROPS['C15'] = dict(
 PROPS['C09'] = dict(
     prop_modules=['Vise.Props.C09'],
     lean_targets=['Vise.Props.C09'],
-    suites=['cache'],
-    trusted=[
+    suites=['cache', 'engine'],
+    compare={'engine': eng(['x', 'fr', 'sz', 'u'])},
+    trusted=ENGINE_TRUSTED + ["the engine suite is compared on the cache fields only (frames, declared sizes, used size): the cache as the engine configures and drives it (capacity from the configuration or from the cache object handed over)"] + [
         "values are (tag,length) stand-ins on the Lean side and runs of one byte on the Go side; only lengths and identity matter to cache.go",
         "Go map iteration order is irrelevant to every modelled result (frameOf returns the outermost defining frame; keys unique by the invariant); map-derived output is sorted before comparison",
     ],
